@@ -301,15 +301,23 @@ def getTariffs (l : List (Schedule K)) (start : Int) (n period : Nat) : Except E
 def getTariffsUs (l : List (Schedule K)) (startUs : Int) (n : Nat) (stepUs : Int) : Except Err (List K) :=
   (List.range n).mapM (fun (t : Nat) => getTariffAt l ((startUs + (t : Int) * stepUs) / 1000000))
 
+/-- the time step a price query refers to (interface.py:688-689, 710-711):
+    `start` if it is given — ANY given integer, 0 included — else the simulator's current iteration -/
+def queryStep (iteration : Nat) (start : Option Int) : Int :=
+  match start with
+  | some k => k
+  | none => (iteration : Int)
+
 /-- `Interface.get_prices(length, start)` (interface.py:675-697): `simStart` is the simulator's
-    start instant, `idx` the (given or current) time step. -/
-def interfacePrices (l : List (Schedule K)) (simStart : Int) (period : Nat) (idx : Int) (n : Nat) :
-    Except Err (List K) :=
-  getTariffs l (simStart + ((period : Int) * 60) * idx) n period
+    start instant, `iteration` its current iteration, `start` the optional explicit time step. -/
+def interfacePrices (l : List (Schedule K)) (simStart : Int) (period iteration : Nat)
+    (start : Option Int) (n : Nat) : Except Err (List K) :=
+  getTariffs l (simStart + ((period : Int) * 60) * queryStep iteration start) n period
 
 /-- `Interface.get_demand_charge(start)` (interface.py:699-716) -/
-def interfaceDemand (l : List (Schedule K)) (simStart : Int) (period : Nat) (idx : Int) : Except Err K :=
-  getDemandAt l (simStart + ((period : Int) * 60) * idx)
+def interfaceDemand (l : List (Schedule K)) (simStart : Int) (period iteration : Nat)
+    (start : Option Int) : Except Err K :=
+  getDemandAt l (simStart + ((period : Int) * 60) * queryStep iteration start)
 
 variable [Add K] [Mul K] [Div K] [OfNat K 0] [NatCast K]
 
